@@ -12,7 +12,7 @@ Mem(name, kind, h) == [name |-> name, parent |-> 1, leaf |-> TRUE, effN |-> 1, e
            leaves |-> <<>>, tz |-> << <<0, 0>> >>, limits |-> LimOf(kind, h), lmul |-> 1]
 TaskL(i, eff, pr, al, deps, tl) == [Task(i, 0, eff, pr, al, deps, -1) EXCEPT !.limits = LimOf("d", tl)]
 Frame2(res, tasks) == [Frame(res, tasks, 1) EXCEPT !.N = 337, !.declN = 337, !.endSec = 1209600, !.declEndSec = 1209600]
-Effs == IF Quick THEN {7200, 18000} ELSE {7200, 18000, 32400}
+Effs == IF Slice = "tiny" THEN {18000} ELSE IF Quick THEN {7200, 18000} ELSE {7200, 18000, 32400}
 Codes == {0, 4} \X {<<"d", 0>>, <<"d", 2>>, <<"d", 3>>, <<"w", 5>>} \X {<<"d", 0>>, <<"d", 3>>}
          \X Effs \X Effs \X Effs \X {<<2>>, <<3>>} \X {<<2>>, <<3>>} \X {<<2>>}
          \X {<<>>, <<Dep(1, 0, FALSE)>>} \X {0, 1} \X {500, 700}
